@@ -711,6 +711,129 @@ pub fn gen_wbound(rng: &mut Rng) -> Vec<Vec<String>> {
     cases
 }
 
+/// The configuration is replaced on the live connection (`WebSocket::set_config`).
+/// Shape A: the new configuration is installed before anything else happens, so the connection
+/// must behave exactly as one created with it (the monitors then judge against the installed
+/// configuration). Shape B: `max_write_buffer_size` is lowered below what is already buffered, then
+/// another write. Shape C: `max_message_size` is lowered below what a fragmented message has already
+/// accumulated, then the rest of the message arrives.
+pub fn gen_cfglive(rng: &mut Rng, count: usize) -> Vec<Vec<String>> {
+    let mut cases = Vec::new();
+    for id in 0..count {
+        let mut r = rng.fork();
+        let rng = &mut r;
+        match id % 4 {
+            0 | 1 => {
+                let prof = *rng.pick(&[Profile::Mixed, Profile::Close, Profile::Limits, Profile::Hostile, Profile::Backpressure, Profile::Codec]);
+                let mut lines = gen_endpoint(rng, prof, id);
+                lines[0] = format!("case endpoint cfglive-a{id}");
+                if lines.iter().any(|l| l.starts_with("op setcfg")) {
+                    continue;
+                }
+                let Some(cfgline) = lines.iter().find(|l| l.starts_with("cfg ")).cloned() else { continue };
+                let client = cfgline.contains("role=client");
+                let w = *rng.pick(&[0usize, 1, 20, 100, 131072]);
+                let mw = match rng.below(4) {
+                    0 => "inf".to_string(),
+                    1 => format!("{}", w + 1 + rng.below(8)),
+                    2 => format!("{}", w + 100 + rng.below(100)),
+                    _ => format!("{}", w + 70000),
+                };
+                let lim = |rng: &mut Rng| match rng.below(4) {
+                    0 => format!("{}", *rng.pick(&[0usize, 1, 5, 125, 126, 127, 300])),
+                    1 => format!("{}", 1usize << 16),
+                    _ => format!("{}", 1usize << 20),
+                };
+                let set = format!(
+                    "op setcfg role={} rbuf=4096 wbuf={w} maxw={mw} maxmsg={} maxframe={} unmasked={} m=-",
+                    if client { "client" } else { "server" },
+                    lim(rng),
+                    lim(rng),
+                    rng.chance(1, 2) as u8
+                );
+                let at = lines.iter().position(|l| l.starts_with("op ")).unwrap_or(lines.len() - 1);
+                lines.insert(at, set);
+                cases.push(lines);
+            }
+            2 => {
+                let client = rng.chance(1, 2);
+                let role = if client { "client" } else { "server" };
+                let mask = if client { 4 } else { 0 };
+                let wbuf = *rng.pick(&[0usize, 3, 40]);
+                let mut lines = vec![format!("case endpoint cfglive-b{id}")];
+                lines.push(format!("cfg role={role} rbuf=4096 wbuf={wbuf} maxw=100000 maxmsg=none maxframe=none unmasked=0 pre=none"));
+                lines.push("script rd=- rddef=b wr=- wrdef=b fl=- fldef=o".to_string());
+                let k = rng.range(1, 4);
+                let mut unsent = 0usize;
+                for _ in 0..k {
+                    let n = *rng.pick(&[0usize, 1, 30, 125, 126, 400]);
+                    unsent += n + 2 + if n < 126 { 0 } else { 2 } + mask;
+                    lines.push(format!("op write binary {} {}", hex(&payload(rng, n)), masks_tok(rng, client, 2)));
+                }
+                // lowered to below, at, or just above what is buffered
+                let base = unsent.max(wbuf + 1);
+                let maxw = match rng.below(4) {
+                    0 => wbuf + 1,
+                    1 => base,
+                    2 => base + rng.range(1, 12),
+                    _ => (base / 2).max(wbuf + 1),
+                };
+                lines.push(format!("op setcfg role={role} rbuf=4096 wbuf={wbuf} maxw={maxw} maxmsg=none maxframe=none unmasked=0 m=-"));
+                let n2 = *rng.pick(&[0usize, 1, 3, 9, 50]);
+                let p2 = hex(&payload(rng, n2));
+                lines.push(format!("op write binary {} {}", p2, masks_tok(rng, client, 2)));
+                lines.push(format!("script rd=- rddef=b wr=- wrdef=a{} fl=- fldef=o", 1usize << 40));
+                lines.push(format!("op flush {}", masks_tok(rng, client, 2)));
+                lines.push(format!("op write binary {} {}", p2, masks_tok(rng, client, 2)));
+                lines.push(format!("op flush {}", masks_tok(rng, client, 2)));
+                lines.push("end".into());
+                cases.push(lines);
+            }
+            _ => {
+                let client = rng.chance(1, 2);
+                let role = if client { "client" } else { "server" };
+                let pg = PeerGen { mask_frames: !client };
+                let text = rng.chance(1, 2);
+                let n1 = *rng.pick(&[1usize, 10, 50, 126, 300]);
+                let body = |rng: &mut Rng, n: usize| -> Vec<u8> { if text { vec![0x61; n] } else { payload(rng, n) } };
+                let b1 = body(rng, n1);
+                let first = pg.frame(rng, false, if text { 1 } else { 2 }, &b1);
+                let n2 = *rng.pick(&[0usize, 0, 1, 5]);
+                let mut rest = Vec::new();
+                if rng.chance(1, 3) {
+                    rest.extend(pg.frame(rng, false, 0, &[]));
+                }
+                let b2 = body(rng, n2);
+                rest.extend(pg.frame(rng, true, 0, &b2));
+                rest.extend(pg.frame(rng, true, 9, &[0x70]));
+                let mut bytes = first.clone();
+                bytes.extend(&rest);
+                // the new limit: below, at, or above what has been accumulated (and what it will be)
+                let maxmsg = match rng.below(5) {
+                    0 => 0,
+                    1 => n1 - 1,
+                    2 => n1,
+                    3 => n1 + n2,
+                    _ => n1 + n2 + 1,
+                };
+                let mut lines = vec![format!("case endpoint cfglive-c{id}")];
+                lines.push(format!("cfg role={role} rbuf=4096 wbuf=0 maxw=inf maxmsg=100000 maxframe=100000 unmasked=0 pre=none"));
+                lines.push(format!("peer {}", hex(&bytes)));
+                lines.push(format!("script rd=d{} rddef=b wr=- wrdef=a{} fl=- fldef=o", first.len(), 1usize << 40));
+                let m = masks_tok(rng, client, 2);
+                lines.push(format!("op read {m}"));
+                lines.push(format!("op setcfg role={role} rbuf=4096 wbuf=0 maxw=inf maxmsg={maxmsg} maxframe=100000 unmasked=0 m=-"));
+                lines.push(format!("script rd=- rddef=d{} wr=- wrdef=a{} fl=- fldef=o", 1usize << 40, 1usize << 40));
+                lines.push(format!("op read {m}"));
+                lines.push(format!("op read {m}"));
+                lines.push("end".into());
+                cases.push(lines);
+            }
+        }
+    }
+    cases
+}
+
 /// Every way of cutting some short byte strings (valid and invalid UTF-8, incl. characters
 /// interrupted by text that is valid on its own) into text fragments, for both roles.
 pub fn gen_utf8cuts(rng: &mut Rng) -> Vec<Vec<String>> {
